@@ -10,6 +10,21 @@ def save_exp(x, max_value: float = 20.0):
     return jnp.exp(x)
 
 
+def x_over_expm1(x, max_value: float = 20.0):
+    """Return `x / (exp(x) - 1)`, continuously extended by its limit 1 at `x = 0`.
+
+    Close to zero the quotient is 0/0 (NaN at zero, catastrophic cancellation next to
+    it), so a series is used there; elsewhere `expm1` avoids the cancellation. As in
+    `save_exp`, the exponent is clipped at `max_value`. The input of the division is
+    guarded as well, such that the gradient is finite everywhere.
+    """
+    x = jnp.asarray(x)
+    small = jnp.abs(x) < 1e-5
+    x_safe = jnp.where(small, 1.0, x)
+    series = 1.0 - x / 2.0 + x * x / 12.0
+    return jnp.where(small, series, x_safe / jnp.expm1(jnp.minimum(x_safe, max_value)))
+
+
 def solve_gate_implicit(
     gating_state: jnp.ndarray,
     dt: float,
